@@ -115,6 +115,48 @@ def run(ctx):
             ids.append(cid)
             cases.append({"id": cid, "steps": st2, "marks": marks})
         groups.append((f"g{t}", steps, marks, ids))
+    # what is in the archive when an operation RETURNS must not depend on detached tasks getting to run afterwards: the
+    # archive is looked at the moment each operation has returned (no waiting), under two runtime flavours
+    lock_cases = []
+    for t in range(3 if quick else 12):
+        def fl(d, m):
+            return {"k": "f", "data": d.hex(), "mode": 0o644, "mtime": 10**18 + m}
+        keep = {f"k{i}": fl(b"keep-%d" % i, i) for i in range(3)}
+        ta = {"k": "d", "mode": 0o755, "mtime": 10**18, "c": dict(keep)}
+        tb = {"k": "d", "mode": 0o755, "mtime": 10**18, "c": dict(keep, extra=fl(b"extra", 9))}
+        if t % 3 == 1:
+            ta["c"]["gone"] = fl(b"only-in-the-first", 5)          # this delete does orphan a block
+        oo = {"meph": 100000, "mbs": 64, "sfc": ctx.rng.choice([0, 16])}
+        dsteps = [{"op": "delete", "bands": [0], "dry": t % 3 == 2, "plan": {"no_quiesce": True}}, {"op": "arch"},
+                  {"op": "delete", "bands": [], "plan": {"no_quiesce": True}}, {"op": "arch"},
+                  {"op": "backup", "opts": oo, "plan": {"no_quiesce": True}}, {"op": "arch"}]
+        steps = [{"op": "init"}, {"op": "mktree", "path": "src", "tree": ta}, {"op": "backup", "opts": oo},
+                 {"op": "mktree", "path": "src", "tree": tb}, {"op": "backup", "opts": oo}] + dsteps
+        for rt in ("current", "multi2"):
+            st2 = copy.deepcopy(steps)
+            for s_ in st2:
+                if s_["op"] in ("backup", "delete", "init"):
+                    s_["runtime"] = rt
+            lock_cases.append({"id": f"q{t}_{rt}", "steps": st2})
+    lres = ctx.cvh_run(lock_cases)
+    for c in lock_cases:
+        r = lres.get(c["id"])
+        ctx.count()
+        if r is None:
+            ctx.oracle_fail("determinism/crash", "history replay crashed or hung", {"steps": c["steps"]})
+            continue
+        for i, (st, rs) in enumerate(zip(c["steps"], r)):
+            if st["op"] in ("delete", "backup") and i >= 5 and rs.get("result") != "ok":
+                ctx.oracle_fail("determinism/operation-refused-after-returned-delete", f"step {i} ({st['op']}) failed under runtime {st.get('runtime')}: "
+                                f"{json.dumps(rs.get('err'))[:160]} although every earlier operation had returned successfully", {"steps": c["steps"][:i + 1]})
+                break
+            if st["op"] == "arch" and c["steps"][i - 1]["op"] == "delete" and r[i - 1].get("result") == "ok" and "GC_LOCK" in rs["arch"]["files"]:
+                ctx.oracle_fail("determinism/lock-left-by-returned-delete", f"a delete that returned Ok (runtime {c['steps'][i - 1].get('runtime')}) left GC_LOCK in the "
+                                f"archive: its removal was left to a detached task", {"steps": c["steps"][:i + 1]})
+                break
+        else:
+            ctx.nontrivial("returned:" + c["id"])
+            ctx.dist("looked_at_on_return")
     res = ctx.cvh_run(cases, timeout=3000)
     hs = []
     for t, steps, marks, ids in groups:
